@@ -256,6 +256,8 @@ class FnCtx:
         self.covered = set()
         self.failed_names = set()
         self.callsites_seen = set()
+        self.ro_sources = set()
+        self.ro_failed = False
         self.trusted_clauses = set()
         self.call_patterns = set(self.scan_call_patterns())
         self.rel = fnkey.split('::', 1)[1]
@@ -292,6 +294,13 @@ class FnCtx:
     # ------------------------------------------------------------ obligations
     def prove(self, st, goal, name, kind, pos=None, text='', assume_after=True):
         t0 = time.time()
+        if self.contract.opts.get('only') == 'readonly' and kind in ('call-requires', 'panic'):
+            # a provenance-only sweep contract (`opt only readonly`): preconditions of callees and
+            # panic guards are taken for granted (the function is may-panic and has its own or no
+            # functional contract elsewhere); the only obligation is the read-only one
+            st.assume(goal)
+            self.notes.append('provenance-only contract: callee preconditions and panic guards assumed')
+            return True
         g = z3.simplify(goal)
         import os as _os
         if _os.environ.get('VCGEN_DUMP') and _os.environ['VCGEN_DUMP'] in name:
@@ -670,6 +679,11 @@ class FnCtx:
                 traceback.print_exc()
             self.results.append(Result(self.short + '.subset', 'subset', self.fnkey, 'unknown', note='out of subset: %s' % ex))
         self.seconds = time.time() - t0
+        if self.ro_sources and not self.ro_failed:
+            for src in sorted(self.ro_sources):
+                self.results.append(Result('%s.readonly[%s]' % (self.short, src), 'readonly', self.fnkey, 'discharged',
+                                           solver='provenance on go/ssa registers',
+                                           text='nothing is written through a value obtained from %s' % src))
         for (pat, c) in self.contract.calls:
             if (pat, c.label) not in self.callsites_seen:
                 self.stale('%s.callsite[%s].requires[%s]' % (self.short, pat, c.label), 'no call matching the pattern was reached')
@@ -751,6 +765,21 @@ class FnCtx:
                 newv[ins['name']] = self.instrs.operand(st, fr, ins['edges'][pi], ins['type'])
             for ins in instrs[:nphi]:
                 st.regs[ins['name']] = newv[ins['name']]
+                if st.ro:
+                    def ro_of(e):
+                        return st.ro.get((id(fr), e.get('name'))) if isinstance(e, dict) and e.get('k') in ('reg', 'param', 'freevar') else None
+                    if b in cfg.loops:
+                        # a loop-carried variable: derived from a read-only result only if every
+                        # incoming edge says so (a variable upgraded to a writable copy inside the
+                        # loop is not flagged: no alarm on `if !rw { c = GetRWCache() }` patterns)
+                        srcs = [ro_of(e) for e in ins['edges']]
+                        src = srcs[0] if all(srcs) else None
+                    else:
+                        src = ro_of(ins['edges'][pi])
+                    if src:
+                        st.ro[(id(fr), ins['name'])] = src
+                    else:
+                        st.ro.pop((id(fr), ins['name']), None)
                 if ins.get('comment') and fr is self.top:
                     st.names[ins['comment']] = ('reg', ins['name'])
                     st.names_seen.add(ins['comment'])
